@@ -5,7 +5,7 @@
    the correspondence compares hex-exactly with the files. *)
 From Coq Require Import String Ascii.
 From Coq Require Import List NArith ZArith QArith Bool Floats Permutation Sorted.
-From Pcfg Require Import ProbAlg F64 TextFile Counters CountersProofs IoFloatFacts CountersF64 IoFacts.
+From Pcfg Require Import ProbAlg F64 TextFile Counters CountersProofs LtallyProofs IoFloatFacts CountersF64 IoFacts.
 Import ListNotations.
 
 (* A list written from the tally of an item sequence: the lines are
@@ -26,6 +26,22 @@ Theorem C06_each_once_sorted : forall items : list str, items <> [] ->
   (forall q : Q, filter (fun kv => Qeq_bool (snd kv) q) (most_common c) = filter (fun kv => Qeq_bool (snd kv) q) c) /\
   map fst c = nodup_first items.
 Proof. exact each_once_sorted. Qed.
+
+(* the length-indexed counters (Alpha, Capitalization, Digits, Other, Keyboard:
+   one file per length): the lengths are in first-seen order, the counter of a
+   length is the tally of the items of that length (so C06_each_once_sorted
+   applies to every file), every item is in the counter of its length and in no
+   other *)
+Theorem C06_length_indexed : forall l : list str,
+  ltally l = map (fun n => (n, tally (filter (len_is n) l))) (nodup_first_N (map slen l)) /\
+  NoDup (map fst (ltally l)) /\
+  (forall n c, In (n, c) (ltally l) -> c = tally (filter (len_is n) l) /\ c <> []) /\
+  (forall k, In k l -> exists c, In (slen k, c) (ltally l) /\ In k (map fst c)) /\
+  (forall n c k, In (n, c) (ltally l) -> In k (map fst c) -> In k l /\ slen k = n).
+Proof.
+  exact (fun l => conj (ltally_spec l) (conj (ltally_keys_nodup l) (conj (ltally_entry l)
+                  (conj (ltally_item_present l) (ltally_items_have_length l))))).
+Qed.
 
 (* the same for ANY counter (e.g. the base structures with the Markov pseudo-count) *)
 Theorem C06_any_counter : forall (O : numops) (c : counter O),
@@ -115,6 +131,7 @@ Theorem C06_example_hypotheses :
 Proof. exact ex_hyps. Qed.
 
 Print Assumptions C06_each_once_sorted.
+Print Assumptions C06_length_indexed.
 Print Assumptions C06_sum_one_Q.
 Print Assumptions C06_markov_count.
 Print Assumptions C06_unsupported_only_raw.
